@@ -3,6 +3,7 @@ package harness
 import (
 	"crypto/tls"
 	"fmt"
+	"strings"
 	"sync"
 	"time"
 
@@ -99,6 +100,11 @@ type clientOpt struct {
 }
 
 func newTestClient(addr string, o clientOpt) (*xmpp.Client, *recorder, error) {
+	c, rec, _, err := newTestClientCfg(addr, o)
+	return c, rec, err
+}
+
+func newTestClientCfg(addr string, o clientOpt) (*xmpp.Client, *recorder, *xmpp.Config, error) {
 	rec := newRecorder()
 	router := xmpp.NewRouter()
 	router.NewRoute().HandlerFunc(rec.onPacket)
@@ -129,10 +135,48 @@ func newTestClient(addr string, o clientOpt) (*xmpp.Client, *recorder, error) {
 	if !o.NoTLSConfig {
 		cfg.TLSConfig = &tls.Config{RootCAs: peer.CAPool(), InsecureSkipVerify: o.SkipVerify, ServerName: o.ServerName}
 	}
+	if o.SM {
+		xmpp.VerifSetResume(cfg, true)
+	}
 	c, err := xmpp.NewClient(cfg, router, rec.onError)
 	if err != nil {
-		return nil, rec, err
+		return nil, rec, cfg, err
 	}
 	c.SetHandler(rec.onEvent)
-	return c, rec, nil
+	return c, rec, cfg, nil
+}
+
+// inbound element builders shared by the session checks
+func inboundStanza(kind, id string, size int) string {
+	pad := ""
+	if size > 0 {
+		pad = strings.Repeat("x", size)
+	}
+	switch kind {
+	case "m":
+		return "<message from='a@localhost/r' to='user@localhost/res' id='" + id + "' type='chat'><body>hi " + pad + "</body></message>"
+	case "p":
+		return "<presence from='a@localhost/r' id='" + id + "'><status>s" + pad + "</status></presence>"
+	case "iq-result":
+		return "<iq from='localhost' id='" + id + "' type='result'><query xmlns='jabber:iq:version'><name>n" + pad + "</name></query></iq>"
+	case "iq-error":
+		return "<iq from='localhost' id='" + id + "' type='error'><error type='cancel'><item-not-found xmlns='urn:ietf:params:xml:ns:xmpp-stanzas'/></error></iq>"
+	case "iq-get":
+		return "<iq from='a@localhost/r' id='" + id + "' type='get'><query xmlns='jabber:iq:version'/></iq>"
+	case "iq-set":
+		return "<iq from='a@localhost/r' id='" + id + "' type='set'><query xmlns='jabber:iq:roster'><item jid='b@c'>" + pad + "</item></query></iq>"
+	}
+	return ""
+}
+
+func packetID(p stanza.Packet) (kind, id string) {
+	switch v := p.(type) {
+	case stanza.Message:
+		return "message", v.Id
+	case stanza.Presence:
+		return "presence", v.Id
+	case *stanza.IQ:
+		return "iq", v.Id
+	}
+	return "", ""
 }
